@@ -67,6 +67,11 @@ fn run_field<F: FieldLike>(ctx: &Ctx, rec: &mut Rec) {
         rec.declare_class(&format!("{}:{}", F::NAME, cl));
     }
     rec.count(&format!("{} zoo size", F::NAME), zoo.len() as u64);
+    {
+        // how far the divstep-worst-case members actually drive the inversion loop (model-side count)
+        let worst = zoo.iter().filter(|z| z.1 == "divstep-worst-case").map(|z| crate::zoo::divsteps(&f.p, &z.0)).max().unwrap_or(0);
+        rec.count(&format!("{} max divsteps among zoo values (uniform inputs: about {})", F::NAME, (f.bits * 207) / 100), worst as u64);
+    }
 
     // binary forms: all pairs of the core zoo x all forms; seeded sample of full-zoo pairs
     par(rec, |w, n, rec| {
